@@ -217,6 +217,8 @@ def run_case(c, rng, props):
                         problems.append(("C05", k, "VJP dtype %s for a float64 argument" % vja.dtype))
                     elif isinstance(x, float) and vja.shape != ():
                         problems.append(("C05", k, "VJP of a Python scalar has shape %s" % (vja.shape,)))
+                if "C09" in props and vja.shape == xa.shape and kind(vja) != kind(xa) and (onp.iscomplexobj(xa) or cplx_out):
+                    problems.append(("C09", k, "the gradient of a %s argument is %s: not conj(J_R^T conj(g)) in the argument's space" % (kind(xa), kind(vja))))
                 if vja.shape != xa.shape and "C04" in props:
                     problems.append(("C04", k, "VJP has shape %s but the JVP's argument space has shape %s: it cannot be the adjoint" % (vja.shape, xa.shape)))
                 if vja.shape != xa.shape and "C01" in props:
@@ -508,6 +510,12 @@ def cases(rng, tier):
     lin("array", "nested-list", (lambda m, a, b: m.array([[a, b], [b, a]])), [2.0, 3.0], (0, 1))
     lin("array", "list-of-arrays", (lambda m, a, b: m.array([a, b])), [iarr(rng, (3,)), iarr(rng, (3,))], (0, 1))
     lin("array", "ndmin", (lambda m, a: m.array(a, ndmin=3)), [iarr(rng, (3,))])
+    for sh in ((1, 3), (3, 1), (1,), (), (1, 1)):
+        lin("array", "ndmin=3 of shape %s" % (sh,), (lambda m, a: m.array(a, ndmin=3)), [iarr(rng, sh)], modes=("rev",))
+        lin("array", "ndmin=1 of shape %s" % (sh,), (lambda m, a: m.array(a, ndmin=1)), [iarr(rng, sh)], modes=("rev",))
+    lin("column_stack", "length-1 vectors", (lambda m, a: m.column_stack([a, 2.0 * a])), [iarr(rng, (1,))], modes=("rev",))
+    lin("atleast_2d", "shape (1,)", (lambda m, a: m.atleast_2d(a)), [iarr(rng, (1,))], modes=("rev",))
+    lin("atleast_3d", "shape (1, 1)", (lambda m, a: m.atleast_3d(a)), [iarr(rng, (1, 1))], modes=("rev",))
     add("sort", "1-D", (lambda m, z: m.sort(z)), [distinct(rng, (5,))], [0], False)
     add("sort", "2-D", (lambda m, z: m.sort(z, axis=-1)), [distinct(rng, A23)], [0], False)
     add("partition", "1-D", (lambda m, z: m.partition(z, 2)), [distinct(rng, (5,))], [0], False)
@@ -817,6 +825,16 @@ def complex_cases(rng, tier):
     add("diag", "complex matrix", (lambda m, a: m.diag(a)), [z23], [0], True)
     add("diag", "complex vector", (lambda m, a: m.diag(a)), [z3], [0], True)
     add("tril", "complex", (lambda m, a: m.tril(a)), [z23], [0], True)
+    # einsum in both calling forms with a real operand against a complex one (the real operand's gradient is real)
+    for form, fe in (("string", lambda m, a, b: m.einsum("ij,jk->ik", a, b)), ("operand", lambda m, a, b: m.einsum(a, [0, 1], b, [1, 2], [0, 2])),
+                     ("operand implicit output", lambda m, a, b: m.einsum(a, [0, 1], b, [1, 2])),
+                     ("operand with Ellipsis", lambda m, a, b: m.einsum(a, [Ellipsis, 1], b, [1, 2], [Ellipsis, 2]))):
+        add("einsum", "%s form real (2,3) x complex (3,2)" % form, fe, [r23, w32], [0, 1], True)
+        add("einsum", "%s form complex (2,3) x real (3,2)" % form, fe, [z23, iarr(rng, (3, 2))], [0, 1], True)
+    add("tensordot", "real x complex", (lambda m, a, b: m.tensordot(a, b, 1)), [r23, w32], [0, 1], True)
+    add("inner", "real x complex", (lambda m, a, b: m.inner(a, b)), [r23, z23], [0, 1], True)
+    add("outer", "real x complex", (lambda m, a, b: m.outer(a, b)), [iarr(rng, (3,)), z3], [0, 1], True)
+    add("kron", "real x complex", (lambda m, a, b: m.kron(a, b)), [iarr(rng, (2,)), z3], [0, 1], True)
     add("trace", "complex", (lambda m, a: m.trace(a)), [cm], [0], False)
     add("matmul", "complex chain", (lambda m, a, b: m.matmul(m.matmul(a, b), m.conj(a))), [cm, cb], [0, 1], False)
     # real -> complex -> real composite gets a real gradient equal to the purely real one
